@@ -75,9 +75,46 @@ type fwSpec struct {
 	direct   bool // destination is the peer's node
 	payload  []byte
 	seq      uint64
+	admin    int // 0 = ordinary bundle; 1 = relayed administrative record, valid status report payload; 2 = the flag with a garbage payload
 }
 
 var fwUnknownTypes = []uint64{11, 42, 191, 196, 200, 65000}
+
+// fwStatusReportPayload: the payload of a status report another node produced about some bundle of
+// its own (the referenced bundle is unknown to this node).
+func fwStatusReportPayload(r *Rng) []byte {
+	ref := bpv7.Bundle{PrimaryBlock: bpv7.PrimaryBlock{
+		Version: 7, Destination: MustEID("dtn://far/y"), SourceNode: MustEID("dtn://rpt/app"), ReportTo: MustEID("dtn://rpt/x"),
+		CreationTimestamp: bpv7.NewCreationTimestamp(bpv7.DtnTime(dtnNowMs()-r.U64()%100000), r.U64()%50), Lifetime: 3600000,
+	}}
+	if r.Intn(3) == 0 {
+		ref.PrimaryBlock.BundleControlFlags |= bpv7.RequestStatusTime
+	}
+	sip := []bpv7.StatusInformationPos{bpv7.ReceivedBundle, bpv7.ForwardedBundle, bpv7.DeliveredBundle, bpv7.DeletedBundle}[r.Intn(4)]
+	reason := []bpv7.StatusReportReason{bpv7.NoInformation, bpv7.LifetimeExpired, bpv7.HopLimitExceeded, bpv7.BlockUnsupported}[r.Intn(4)]
+	cb, err := bpv7.AdministrativeRecordToCbor(bpv7.NewStatusReport(ref, sip, reason, bpv7.DtnTimeNow()))
+	if err != nil {
+		panic(err)
+	}
+	return cb.Value.(*bpv7.PayloadBlock).Data()
+}
+
+// fwMakeAdmin turns the spec into an administrative record of ANOTHER node that this node merely
+// relays (source, destination and report-to are foreign): the administrative-record flag is set, and
+// what CheckValid forbids together with it (status requests, report-requesting blocks) is cleared.
+func fwMakeAdmin(r *Rng, s *fwSpec, kind int) {
+	s.admin = kind
+	s.pflags |= bpv7.AdministrativeRecordPayload
+	s.pflags &^= bpv7.StatusRequestReception | bpv7.StatusRequestForward | bpv7.StatusRequestDelivery | bpv7.StatusRequestDeletion
+	for i := range s.unknown {
+		s.unknown[i].flags &^= bpv7.StatusReportBlock
+	}
+	if kind == 1 {
+		s.payload = fwStatusReportPayload(r)
+	} else if len(s.payload) == 0 || r.Intn(3) == 0 {
+		s.payload = r.Bytes(1 + r.Intn(40))
+	}
+}
 
 func fwBuild(r *Rng, s *fwSpec, now uint64, peer string) bpv7.Bundle {
 	dst := "dtn://far/x"
@@ -718,6 +755,9 @@ func genC06forward(o *Out, r *Rng, thorough bool) {
 		alg := fwAlgs[i%len(fwAlgs)]
 		s := fwRandSpec(r, next())
 		s.direct = fwDirectFor(r, alg)
+		if r.Intn(8) == 0 {
+			fwMakeAdmin(r, s, 1+r.Intn(2))
+		}
 		sc := fwRandScenario(r, alg)
 		if !sc.peerFirst && r.Intn(4) == 0 {
 			// a real residence before the first transmission (no stored timestamp is involved)
@@ -867,6 +907,92 @@ func genC06forward(o *Out, r *Rng, thorough bool) {
 			s.hop = &[2]uint8{30, uint8(r.Intn(30))}
 		}
 		fwRunCase(o, r, e, sc, s, "exp")
+	}
+	// ---- stream "adm": relayed administrative records (the administrative-record flag set, a valid
+	//      status report of another node or garbage as payload) through every refusal path of forward -
+	//      hop count at / over its limit, age at the lifetime on arrival, age crossing the lifetime
+	//      through the residence time, creation-time expiry before the reception - and, as controls,
+	//      the same records where nothing must be refused; node with inspectAllBundles on and off ----
+	nadm := 8
+	if thorough {
+		nadm = 60
+	}
+	for rep := 0; rep < nadm; rep++ {
+		for path := 0; path < 7; path++ {
+			for kind := 1; kind <= 2; kind++ {
+				alg := fwAlgs[(rep+path+kind)%len(fwAlgs)]
+				s := &fwSpec{seq: next(), payload: fwPayload(r), direct: fwDirectFor(r, alg), tsBack: 1000, life: 3600000 + 1000}
+				if r.Intn(3) == 0 {
+					s.prev = fwPrevHop
+				}
+				if r.Intn(4) == 0 {
+					fwRandUnknown(r, s)
+				}
+				sc := fwScenario{alg: alg}
+				// how the refusing pass is reached: at the reception (peer up), when a peer appears, at a plain retry
+				how := r.Intn(3)
+				res := []uint64{0, 50, 3000}[r.Intn(3)]
+				entry := func() {
+					switch how {
+					case 0:
+						sc.peerFirst = true
+					case 1:
+						sc.rounds = []fwRound{{kind: "retry", resMs: res, viaPeer: true}}
+					default:
+						sc.rounds = []fwRound{{kind: "retry", resMs: res}, {kind: "retry", resMs: res + 40, viaPeer: true}}
+					}
+					// whatever happened, the following passes must find nothing left to do
+					sc.rounds = append(sc.rounds, fwRound{kind: "retry", resMs: res + 100}, fwRound{kind: "clean"})
+				}
+				switch path {
+				case 0: // hop count already at its limit
+					l := uint8(r.Pick([]uint64{0, 1, 2, 23, 24, 30, 254, 255}))
+					s.hop = &[2]uint8{l, l}
+					entry()
+				case 1: // hop count one below the limit: the last admissible hop (control)
+					l := uint8(r.Pick([]uint64{1, 2, 24, 30, 255}))
+					s.hop = &[2]uint8{l, l - 1}
+					entry()
+				case 2: // clock-less, age == lifetime on arrival (the parser accepts it, forward must refuse it)
+					a := r.Pick([]uint64{1, 5, 1000, 86400000})
+					s.zeroTime, s.age, s.life = true, &a, a
+					entry()
+				case 3: // clock-less, the age crosses the lifetime while the record waits in the store
+					a := r.Pick([]uint64{0, 5, 1000, 86400000})
+					s.zeroTime, s.age = true, &a
+					s.life = a + 3000 - r.Pick([]uint64{300, 2000})
+					if r.Bool() {
+						sc.rounds = []fwRound{{kind: "retry", resMs: 3000, viaPeer: true}}
+					} else {
+						sc.peerFirst = true
+						sc.fails = 1
+						sc.rounds = []fwRound{{kind: "retry", resMs: 3000}}
+					}
+					sc.rounds = append(sc.rounds, fwRound{kind: "retry", resMs: 8000}, fwRound{kind: "clean"})
+				case 4: // clock-less, lifetime far away (control)
+					a := r.Pick([]uint64{0, 5, 1000, 86400000})
+					s.zeroTime, s.age, s.life = true, &a, a+3600000
+					entry()
+				case 5: // creation-time lifetime over before the reception
+					s.tsBack = 7200000
+					s.life = 3600000 + r.Pick([]uint64{0, 3000000})
+					entry()
+				default: // with a creation time AND an age block: the age check applies all the same
+					a := uint64(86400000)
+					s.age = &a
+					s.life = a + 3000 - r.Pick([]uint64{300, 2000})
+					sc.peerFirst = true
+					sc.fails = 1
+					sc.rounds = []fwRound{{kind: "retry", resMs: 3000}, {kind: "retry", resMs: 8000}, {kind: "clean"}}
+				}
+				fwMakeAdmin(r, s, kind)
+				n := e.node(alg)
+				e.used[alg]--
+				n.Core.InspectAllBundles = r.Intn(3) == 0
+				fwRunCase(o, r, e, sc, s, "adm")
+				n.Core.InspectAllBundles = false
+			}
+		}
 	}
 }
 
